@@ -20,7 +20,7 @@ PROP = dict(
     max_rejections=8,
     nontrivial=_nontrivial,
     min_nontrivial=20,
-    rule="the same seeded operation sequence (10-30 calls, quick; up to 60 thorough: Write/WriteAt/Read/ReadAt/Seek/Size, payloads "
+    rule="the same seeded operation sequence (10-30 calls; occasionally 60 in thorough: Write/WriteAt/Read/ReadAt/Seek/Size, payloads "
          "0..40(80) bytes, positional writes inside/abutting/beyond the end, reads crossing the end, negative offsets) is run on "
          "os.File, base.BufferReadWriter (capacity 0 / generous / too small), memory.File (via memory.Store.Create with the same "
          "capacities) and the read-only store.NewBufferFileReader; one trace per (sequence, implementation); every call logged with "
